@@ -71,6 +71,17 @@ func c08Units(ctx *core.Ctx) []core.Unit {
 	us = append(us, core.Unit{Name: "Add/Sub/AddMixed all pairs x representations x aliasing", Run: func(ctx *core.Ctx, r *core.Result) {
 		needRef()
 		els := c08Elements(ctx.Seed)
+		{
+			// history: results of empty/small MSMs are accumulated into in place (ordinary caller behaviour)
+			// before the laws are checked; SetIdentity and "+ identity" must be unaffected
+			var acc banderwagon.Element
+			if out, err := acc.MultiExp(nil, nil, banderwagon.MultiExpConfig{NbTasks: 1, ScalarsMont: true}); err == nil && out != nil {
+				out.Add(out, &banderwagon.Generator)
+				out.Double(out)
+			}
+			var idn banderwagon.Element
+			idn.SetIdentity().Add(&idn, &banderwagon.Generator)
+		}
 		for _, a := range els {
 			for ra := 0; ra < nRepr; ra++ {
 				ea := reprOf(elFromRef(a.pt), ra)
